@@ -1,372 +1,22 @@
 import TongoProofs.Lemmas.WalletMsg
-/-! The dictionary of the highload payload: `encodeMap` on the keys 0..n-1 (16 bits) always succeeds and `mapInner`
-reads back exactly the entries in order. Proved for every key set given as a binary-trie decomposition (`Trie`), then
-every interval of L-bit numbers is shown to be one. Keys are at most 16 bits long (label lengths fit the cell). -/
+import TongoProofs.C05
+/-! The dictionary of the highload payload on top of the shared dictionary model (`TongoModel/Hashmap.lean`) and its
+theorems (C05): the entries `i ↦ (mode_i, msg_i)`, i = 0..n-1 on 16-bit keys, are in ascending key-bit order, so the
+encoder succeeds and the decoder returns them unchanged and in order. -/
 namespace Tongo.Wallet
-open Tongo Tongo.Bits
+open Tongo Tongo.Bits Tongo.Hashmap
 
-/-- prefix a key -/
-def pre (q : List Bool) (kv : List Bool × RawMsg) : List Bool × RawMsg := (q ++ kv.1, kv.2)
+/-- what the value codec writes for a message -/
+def hlPay (m : RawMsg) : List Bool × List Cell := (natToBits 8 m.mode, [m.msg])
 
-/-- key sets in trie order: one key, or a common prefix `p` followed by a 0-branch and a 1-branch -/
-inductive Trie : Nat → List (List Bool × RawMsg) → Prop where
-  | leaf (k : List Bool) (m : RawMsg) : Trie k.length [(k, m)]
-  | node (p : List Bool) (l r : List (List Bool × RawMsg)) (m : Nat) : Trie m l → Trie m r →
-      Trie (p.length + 1 + m) (l.map (pre (p ++ [false])) ++ r.map (pre (p ++ [true])))
-
-theorem Trie.ne_nil {L : Nat} {kvs : List (List Bool × RawMsg)} (h : Trie L kvs) : kvs ≠ [] := by
-  induction h with
-  | leaf k m => simp
-  | node p l r m hl hr ihl ihr =>
-    intro he
-    simp only [List.append_eq_nil_iff, List.map_eq_nil_iff] at he
-    exact ihl he.1
-
-theorem Trie.key_length {L : Nat} {kvs : List (List Bool × RawMsg)} (h : Trie L kvs) : ∀ kv ∈ kvs, kv.1.length = L := by
-  induction h with
-  | leaf k m => intro kv hkv; simp at hkv; rw [hkv]
-  | node p l r m hl hr ihl ihr =>
-    intro kv hkv
-    simp only [List.mem_append, List.mem_map] at hkv
-    rcases hkv with ⟨x, hx, rfl⟩ | ⟨x, hx, rfl⟩
-    · simp [pre, ihl x hx]; omega
-    · simp [pre, ihr x hx]; omega
-
-/-! ### labels -/
-
-theorem readUnary_replicate (n : Nat) : ∀ (fuel : Nat) (rest : List Bool) (refs : List Cell), n < fuel →
-    CellR.readUnary fuel { bits := List.replicate n true ++ false :: rest, refs := refs } = .ok (n, { bits := rest, refs := refs }) := by
-  induction n with
-  | zero => intro fuel rest refs hf; cases fuel with
-    | zero => omega
-    | succ f => simp [CellR.readUnary]
-  | succ n ih =>
-    intro fuel rest refs hf
-    cases fuel with
-    | zero => omega
-    | succ f =>
-      simp only [List.replicate_succ, List.cons_append, CellR.readUnary, bind, Outcome.bind, pure]
-      rw [ih f rest refs (by omega)]
-
-theorem minBits_le16 : ∀ L : Fin 17, minBitsRequired L.val ≤ 5 := by decide
-theorem lt_pow_minBits : ∀ L : Fin 17, ∀ n : Fin 17, n.val ≤ L.val → n.val < 2 ^ minBitsRequired L.val := by decide
-
-theorem labelBits_length_le (label : List Bool) (L : Nat) (hl : label.length ≤ L) (hL : L ≤ 16) : (labelBits label L).length ≤ 40 := by
-  unfold labelBits
-  have := minBits_le16 ⟨L, by omega⟩
-  simp only at this
-  split <;> simp <;> omega
-
-/-- reading back a label written by `encodeLabel` -/
-theorem loadLabel_labelBits (K L : Nat) (label rest : List Bool) (refs : List Cell) (pfx : List Bool)
-    (hl : label.length ≤ L) (hL : L ≤ 16) (hp : pfx.length + label.length ≤ K) :
-    loadLabel K (L : Int) { bits := labelBits label L ++ rest, refs := refs } pfx =
-      .ok (label.length, pfx ++ label, { bits := rest, refs := refs }) := by
-  unfold loadLabel labelBits
-  by_cases hs : label.length < 8
-  · simp only [hs, ↓reduceIte, List.append_assoc, List.cons_append, List.nil_append, CellR.readBit_cons, bind, Outcome.bind,
-      Bool.not_false, pure]
-    rw [readUnary_replicate label.length _ _ _ (by simp; omega)]
-    simp only []
-    have hm : min label.length ((label ++ rest).length + 1) = label.length := by simp; omega
-    rw [hm, CellR.readBits_append label rest refs _ rfl]
-    simp [prefixPush, hp]
-  · simp only [hs, ↓reduceIte, List.append_assoc, List.cons_append, List.nil_append, CellR.readBit_cons, bind, Outcome.bind,
-      Bool.not_true, Bool.false_eq_true, Bool.not_false, pure]
-    have hw : limUintWidth (L : Int) = minBitsRequired L := by
-      unfold limUintWidth; simp
-    rw [hw, CellR.readUint_append _ label.length _ _ (lt_pow_minBits ⟨L, by omega⟩ ⟨label.length, by omega⟩ hl)]
-    simp only []
-    have hm : min label.length ((label ++ rest).length + 1) = label.length := by simp; omega
-    rw [hm, CellR.readBits_append label rest refs _ rfl]
-    simp [prefixPush, hp]
-
-theorem commonLabel_split (p a b : List Bool) : commonLabel (p ++ false :: a) (p ++ true :: b) = p := by
-  induction p with
-  | nil => cases a <;> simp [commonLabel]
-  | cons x xs ih =>
-    cases hxs : xs ++ false :: a with
-    | nil => simp at hxs
-    | cons y ys =>
-      simp only [List.cons_append, hxs, commonLabel, ↓reduceIte]
-      rw [← hxs, ih]
-
-/-! ### round trip -/
-
-/-- what `mapInner` with the identity value reader returns for an entry -/
-def leafR (kv : List Bool × RawMsg) : CellR := { bits := natToBits 8 kv.2.mode, refs := [kv.2.msg] }
-
-theorem filterMap_left (p : List Bool) (l r : List (List Bool × RawMsg)) :
-    (l.map (pre (p ++ [false])) ++ r.map (pre (p ++ [true]))).filterMap
-      (fun (kv : List Bool × RawMsg) => if (kv.1.drop p.length).head? = some false then some (kv.1.drop (p.length + 1), kv.2) else none) = l := by
-  rw [List.filterMap_append]
-  have h1 : (l.map (pre (p ++ [false]))).filterMap
-      (fun (kv : List Bool × RawMsg) => if (kv.1.drop p.length).head? = some false then some (kv.1.drop (p.length + 1), kv.2) else none) = l := by
-    induction l with
-    | nil => rfl
-    | cons x xs ih =>
-      simp only [List.map_cons, List.filterMap_cons, pre, List.append_assoc, List.singleton_append, List.drop_left',
-        List.head?_cons, ↓reduceIte, ih]
-      · have : List.drop (p.length + 1) (p ++ false :: x.1) = x.1 := by
-          rw [← List.drop_drop, List.drop_left']; rfl
-          rfl
-        rw [this]
-      all_goals rfl
-  have h2 : (r.map (pre (p ++ [true]))).filterMap
-      (fun (kv : List Bool × RawMsg) => if (kv.1.drop p.length).head? = some false then some (kv.1.drop (p.length + 1), kv.2) else none) = [] := by
-    induction r with
-    | nil => rfl
-    | cons x xs ih =>
-      simp only [List.map_cons, List.filterMap_cons, pre, List.append_assoc, List.singleton_append, List.drop_left',
-        List.head?_cons, ih]
-      · simp
-      all_goals rfl
-  rw [h1, h2, List.append_nil]
-
-theorem filterMap_right (p : List Bool) (l r : List (List Bool × RawMsg)) :
-    (l.map (pre (p ++ [false])) ++ r.map (pre (p ++ [true]))).filterMap
-      (fun (kv : List Bool × RawMsg) => if (kv.1.drop p.length).head? = some true then some (kv.1.drop (p.length + 1), kv.2) else none) = r := by
-  rw [List.filterMap_append]
-  have h1 : (l.map (pre (p ++ [false]))).filterMap
-      (fun (kv : List Bool × RawMsg) => if (kv.1.drop p.length).head? = some true then some (kv.1.drop (p.length + 1), kv.2) else none) = [] := by
-    induction l with
-    | nil => rfl
-    | cons x xs ih =>
-      simp only [List.map_cons, List.filterMap_cons, pre, List.append_assoc, List.singleton_append, List.drop_left',
-        List.head?_cons, ih]
-      · simp
-      all_goals rfl
-  have h2 : (r.map (pre (p ++ [true]))).filterMap
-      (fun (kv : List Bool × RawMsg) => if (kv.1.drop p.length).head? = some true then some (kv.1.drop (p.length + 1), kv.2) else none) = r := by
-    induction r with
-    | nil => rfl
-    | cons x xs ih =>
-      simp only [List.map_cons, List.filterMap_cons, pre, List.append_assoc, List.singleton_append, List.drop_left',
-        List.head?_cons, ↓reduceIte, ih]
-      · have : List.drop (p.length + 1) (p ++ true :: x.1) = x.1 := by
-          rw [← List.drop_drop, List.drop_left']; rfl
-          rfl
-        rw [this]
-      all_goals rfl
-  rw [h1, h2, List.nil_append]
-
-theorem leafR_pre (q : List Bool) (kv : List Bool × RawMsg) : leafR (pre q kv) = leafR kv := rfl
-
-/-- the interior-node branch of `encodeMap` -/
-theorem encodeMap_node (fuel : Nat) (a b : List Bool × RawMsg) (rest : List (List Bool × RawMsg)) (L : Nat) (label : List Bool)
-    (hlabel : edgeLabel a.1 (a :: b :: rest) = label) :
-    encodeMap payloadStep (fuel + 1) (a :: b :: rest) L =
-      (do
-        let bb ← CellB.empty.write (labelBits label L)
-        let l ← encodeMap payloadStep fuel ((a :: b :: rest).filterMap fun (kv : List Bool × RawMsg) =>
-          if (kv.1.drop label.length).head? = some false then some (kv.1.drop (label.length + 1), kv.2) else none) (L - label.length - 1)
-        let r ← encodeMap payloadStep fuel ((a :: b :: rest).filterMap fun (kv : List Bool × RawMsg) =>
-          if (kv.1.drop label.length).head? = some true then some (kv.1.drop (label.length + 1), kv.2) else none) (L - label.length - 1)
-        let bb ← bb.addRef l
-        let bb ← bb.addRef r
-        pure bb.toCell) := by
-  obtain ⟨k0, v0⟩ := a
-  rw [encodeMap]
-  simp only [] at hlabel ⊢
-  rw [hlabel]
-
-theorem trie_roundtrip {L : Nat} {kvs : List (List Bool × RawMsg)} (h : Trie L kvs) :
-    L ≤ 16 → ∀ (fuel fuel2 K : Nat) (pfx : List Bool), L < fuel → L < fuel2 → pfx.length + L = K →
-      ∃ c, encodeMap payloadStep fuel kvs L = .ok c ∧ c.ty = 0 ∧
-        mapInner (fun r => Outcome.ok r) K fuel2 (L : Int) c pfx = .ok (kvs.map fun kv => (pfx ++ kv.1, leafR kv)) := by
-  induction h with
-  | leaf k m =>
-    intro hL fuel fuel2 K pfx hf hf2 hK
-    cases fuel with
-    | zero => omega
-    | succ f =>
-    cases fuel2 with
-    | zero => omega
-    | succ f2 =>
-      have hlen := labelBits_length_le k k.length (Nat.le_refl _) hL
-      refine ⟨Cell.ordinary (labelBits k k.length ++ natToBits 8 m.mode) [m.msg], ?_, rfl, ?_⟩
-      · rw [encodeMap]
-        simp only [bind, Outcome.bind, pure]
-        rw [CellB.write_ok _ _ (by simp [CellB.empty]; omega)]
-        simp only []
-        rw [payloadStep_ok _ _ (by simp [CellB.empty]; omega) (by simp [CellB.empty])]
-        simp [CellB.toCell, CellB.empty]
-      · rw [mapInner, if_neg (by simp [Cell.ordinary, Cell.ty, tyPruned])]
-        simp only [Cell.ordinary, CellR.ofCell, Cell.bits, Cell.refs, bind, Outcome.bind, pure]
-        rw [loadLabel_labelBits K k.length k _ _ pfx (Nat.le_refl _) hL (by omega)]
-        simp only []
-        rw [if_neg (by simp; omega)]
-        simp [leafR]
-  | node p l r m hl hr ihl ihr =>
-    intro hL fuel fuel2 K pfx hf hf2 hK
-    cases fuel with
-    | zero => omega
-    | succ f =>
-    cases fuel2 with
-    | zero => omega
-    | succ f2 =>
-      have hm : m ≤ 16 := by omega
-      obtain ⟨cl, hcl, htl, hdl⟩ := ihl hm f f2 K (pfx ++ p ++ [false]) (by omega) (by omega) (by simp; omega)
-      obtain ⟨cr, hcr, htr, hdr⟩ := ihr hm f f2 K (pfx ++ p ++ [true]) (by omega) (by omega) (by simp; omega)
-      have hlen := labelBits_length_le p (p.length + 1 + m) (by omega) hL
-      -- the list has at least two entries; its first key is `p ++ 0 …`, its last `p ++ 1 …`
-      obtain ⟨x, xs, hlx⟩ : ∃ x xs, l = x :: xs := by
-        cases l with
-        | nil => exact absurd rfl hl.ne_nil
-        | cons x xs => exact ⟨x, xs, rfl⟩
-      obtain ⟨y, hy⟩ : ∃ y, r.getLast? = some y := by
-        cases hrr : r.getLast? with
-        | none => exact absurd (List.getLast?_eq_none_iff.mp hrr) hr.ne_nil
-        | some y => exact ⟨y, rfl⟩
-      have hrne : r ≠ [] := hr.ne_nil
-      set kvs := l.map (pre (p ++ [false])) ++ r.map (pre (p ++ [true])) with hkvs
-      have hlast : kvs.getLast? = some (pre (p ++ [true]) y) := by
-        rw [hkvs, List.getLast?_append, List.getLast?_map, hy]
-        rfl
-      obtain ⟨a, b, rest, hab⟩ : ∃ a b rest, kvs = a :: b :: rest ∧ a = pre (p ++ [false]) x := by
-        rw [hkvs, hlx]
-        cases xs with
-        | nil =>
-          cases r with
-          | nil => exact absurd rfl hrne
-          | cons y' ys =>
-            exact ⟨pre (p ++ [false]) x, pre (p ++ [true]) y', ys.map (pre (p ++ [true])), by simp, rfl⟩
-        | cons x' xs' =>
-          exact ⟨pre (p ++ [false]) x, pre (p ++ [false]) x', xs'.map (pre (p ++ [false])) ++ r.map (pre (p ++ [true])),
-            by simp, rfl⟩
-      have hlabel : edgeLabel a.1 (a :: b :: rest) = p := by
-        unfold edgeLabel
-        rw [← hab.1, hlast, hab.2]
-        simp only [pre, List.append_assoc, List.singleton_append]
-        exact commonLabel_split p x.1 y.1
-      have henc := encodeMap_node f a b rest (p.length + 1 + m) p hlabel
-      rw [← hab.1] at henc
-      have hsub : p.length + 1 + m - p.length - 1 = m := by omega
-      refine ⟨Cell.ordinary (labelBits p (p.length + 1 + m)) [cl, cr], ?_, rfl, ?_⟩
-      · rw [henc, hsub, hkvs, filterMap_left, filterMap_right, hcl, hcr]
-        simp only [bind, Outcome.bind, pure]
-        rw [CellB.write_ok _ _ (by simp [CellB.empty]; omega)]
-        simp [CellB.addRef, CellB.toCell, CellB.empty]
-      · rw [mapInner, if_neg (by simp [Cell.ordinary, Cell.ty, tyPruned])]
-        simp only [Cell.ordinary, CellR.ofCell, Cell.bits, Cell.refs, bind, Outcome.bind, pure]
-        have hlb := loadLabel_labelBits K (p.length + 1 + m) p [] [cl, cr] pfx (by omega) hL (by omega)
-        rw [List.append_nil] at hlb
-        rw [hlb]
-        simp only []
-        rw [if_pos (by simp; omega)]
-        simp only [CellR.nextRef_cons, prefixPush]
-        rw [if_pos (by simp; omega)]
-        simp only []
-        have hcast : ((p.length + 1 + m : Nat) : Int) - (1 + (p.length : Int)) = (m : Int) := by push_cast; ring
-        rw [hcast, hdl]
-        simp only [CellR.nextRef_cons]
-        rw [if_pos (by simp; omega)]
-        simp only []
-        rw [hdr]
-        simp only [hkvs, List.map_append, List.map_map, Outcome.ok.injEq]
-        congr 1 <;> (apply List.map_congr_left; intro kv _; simp [pre, leafR])
-
-/-! ### intervals of L-bit numbers are tries -/
-
-theorem Trie.cast {a b : Nat} {kvs : List (List Bool × RawMsg)} (h : a = b) (t : Trie a kvs) : Trie b kvs := h ▸ t
-
-theorem pre_pre (q p : List Bool) (kv : List Bool × RawMsg) : pre q (pre p kv) = pre (q ++ p) kv := by
-  simp [pre]
-
-/-- prefixing every key with one bit keeps a trie a trie -/
-theorem Trie.prefix_bit {m : Nat} {kvs : List (List Bool × RawMsg)} (t : Trie m kvs) (b : Bool) :
-    Trie (m + 1) (kvs.map (pre [b])) := by
-  cases t with
-  | leaf k v =>
-    have := Trie.leaf (b :: k) v
-    simpa [pre] using this
-  | node p l r m' hl hr =>
-    have := Trie.node (b :: p) l r m' hl hr
-    refine Trie.cast (a := (b :: p).length + 1 + m') (by simp; omega) ?_
-    simpa [List.map_append, List.map_map, Function.comp_def, pre_pre] using this
-
-/-- the entries for the numbers lo .. lo+cnt-1 written on L bits -/
-def keysOf (L lo cnt : Nat) (val : Nat → RawMsg) : List (List Bool × RawMsg) :=
-  (List.range' lo cnt).map fun x => (natToBits L x, val x)
-
-theorem testBit_lt {x L : Nat} (h : x < 2 ^ L) : x.testBit L = false := Nat.testBit_lt_two_pow h
-
-theorem testBit_ge {x L : Nat} (h1 : 2 ^ L ≤ x) (h2 : x < 2 ^ (L + 1)) : x.testBit L = true := by
-  rw [Nat.testBit_eq_decide_div_mod_eq]
-  have : x / 2 ^ L = 1 := by
-    apply Nat.div_eq_of_lt_le
-    · simpa using h1
-    · simpa [Nat.pow_succ, Nat.mul_comm] using h2
-  simp [this]
-
-theorem keysOf_low (L lo cnt : Nat) (val : Nat → RawMsg) (h : lo + cnt ≤ 2 ^ L) :
-    keysOf (L + 1) lo cnt val = (keysOf L lo cnt val).map (pre [false]) := by
-  unfold keysOf
-  rw [List.map_map]
-  apply List.map_congr_left
-  intro x hx
-  have hx' := List.mem_range'_1.mp hx
-  simp [pre, natToBits, testBit_lt (show x < 2 ^ L by omega)]
-
-theorem keysOf_high (L lo cnt : Nat) (val : Nat → RawMsg) (h1 : 2 ^ L ≤ lo) (h2 : lo + cnt ≤ 2 ^ (L + 1)) :
-    keysOf (L + 1) lo cnt val = (keysOf L (lo - 2 ^ L) cnt (fun x => val (x + 2 ^ L))).map (pre [true]) := by
-  unfold keysOf
-  rw [List.map_map]
-  have hr : List.range' lo cnt = (List.range' (lo - 2 ^ L) cnt).map (fun x => 2 ^ L + x) := by
-    rw [List.map_add_range']
-    congr 1
-    omega
-  rw [hr, List.map_map]
-  apply List.map_congr_left
-  intro x hx
-  have hx' := List.mem_range'_1.mp hx
-  have hb : (2 ^ L + x).testBit L = true := testBit_ge (by omega) (by rw [Nat.pow_succ] at h2 ⊢; omega)
-  have hn : natToBits L (2 ^ L + x) = natToBits L x := by
-    rw [← natToBits_mod L (2 ^ L + x), Nat.add_mod_left, natToBits_mod]
-  rw [Nat.add_comm] at hb hn
-  simp [pre, natToBits, hb, hn, Nat.add_comm]
-
-theorem interval_trie : ∀ (L lo cnt : Nat) (val : Nat → RawMsg), 1 ≤ cnt → lo + cnt ≤ 2 ^ L → Trie L (keysOf L lo cnt val) := by
-  intro L
-  induction L with
-  | zero =>
-    intro lo cnt val h1 h2
-    have hlo : lo = 0 := by simp at h2; omega
-    have hc : cnt = 1 := by simp at h2; omega
-    subst hlo hc
-    exact Trie.leaf [] (val 0)
-  | succ L ih =>
-    intro lo cnt val h1 h2
-    by_cases hlow : lo + cnt ≤ 2 ^ L
-    · rw [keysOf_low L lo cnt val hlow]
-      exact (ih lo cnt val h1 hlow).prefix_bit false
-    · by_cases hhigh : 2 ^ L ≤ lo
-      · rw [keysOf_high L lo cnt val hhigh h2]
-        exact (ih (lo - 2 ^ L) cnt _ h1 (by rw [Nat.pow_succ] at h2; omega)).prefix_bit true
-      · -- the interval straddles 2^L: a node with the empty label
-        have hsplit : List.range' lo cnt = List.range' lo (2 ^ L - lo) ++ List.range' (2 ^ L) (lo + cnt - 2 ^ L) := by
-          have : cnt = (2 ^ L - lo) + (lo + cnt - 2 ^ L) := by omega
-          rw [this, ← List.range'_append_1]
-          congr 2 <;> omega
-        have hl := ih lo (2 ^ L - lo) val (by omega) (by omega)
-        have hr := ih 0 (lo + cnt - 2 ^ L) (fun x => val (x + 2 ^ L)) (by omega) (by rw [Nat.pow_succ] at h2; omega)
-        have hnode := Trie.node [] _ _ L hl hr
-        have e1 : keysOf (L + 1) lo (2 ^ L - lo) val = (keysOf L lo (2 ^ L - lo) val).map (pre [false]) :=
-          keysOf_low L lo _ val (by omega)
-        have e2 : keysOf (L + 1) (2 ^ L) (lo + cnt - 2 ^ L) val =
-            (keysOf L 0 (lo + cnt - 2 ^ L) (fun x => val (x + 2 ^ L))).map (pre [true]) := by
-          have := keysOf_high L (2 ^ L) (lo + cnt - 2 ^ L) val (Nat.le_refl _) (by omega)
-          simpa using this
-        have : keysOf (L + 1) lo cnt val =
-            (keysOf L lo (2 ^ L - lo) val).map (pre ([] ++ [false])) ++
-              (keysOf L 0 (lo + cnt - 2 ^ L) (fun x => val (x + 2 ^ L))).map (pre ([] ++ [true])) := by
-          simp only [List.nil_append, ← e1, ← e2]
-          unfold keysOf
-          rw [hsplit, List.map_append]
-        rw [this]
-        exact Trie.cast (a := ([] : List Bool).length + 1 + L) (by simp; omega) hnode
-
-/-! ### the highload payload -/
+theorem hl_fits (m : RawMsg) (hm : m.mode < 256) : Fits highloadCodec hlPay 16 m := by
+  refine ⟨rfl, ?_, by simp [hlPay], ?_⟩
+  · have : Hashmap.minBitsRequired 16 = 5 := by decide
+    simp [hlPay, this]
+  · unfold DecodesValue highloadCodec hlPay highloadEntry
+    have := CellR.readUint_append 8 m.mode [] [m.msg] hm
+    rw [List.append_nil] at this
+    simp only [bind, Outcome.bind, pure, this, CellR.nextRef_cons]
 
 theorem zip_range'_map (msgs : List RawMsg) : ∀ (off : Nat),
     ((List.range' off msgs.length).zip msgs).map (fun (p : Nat × RawMsg) => (natToBits 16 p.1, p.2)) =
@@ -384,61 +34,72 @@ theorem zip_range'_map (msgs : List RawMsg) : ∀ (off : Nat),
     have : x - off = (x - (off + 1)) + 1 := by omega
     rw [this, List.getD_cons_succ]
 
-theorem highload_keys (msgs : List RawMsg) :
-    ((List.range msgs.length).zip msgs |>.map fun (p : Nat × RawMsg) => (natToBits 16 p.1, p.2)) =
-      keysOf 16 0 msgs.length (fun x => msgs.getD x default) := by
+theorem highloadKvs_eq (msgs : List RawMsg) :
+    highloadKvs msgs = (List.range' 0 msgs.length).map (fun x => (natToBits 16 x, msgs.getD x default)) := by
+  unfold highloadKvs
   rw [List.range_eq_range']
-  have := zip_range'_map msgs 0
-  simpa [keysOf] using this
+  simpa using zip_range'_map msgs 0
 
-theorem keysOf_values (msgs : List RawMsg) : (keysOf 16 0 msgs.length (fun x => msgs.getD x default)).map (·.2) = msgs := by
-  unfold keysOf
-  rw [List.map_map]
+theorem highloadKvs_values (msgs : List RawMsg) : (highloadKvs msgs).map (·.2) = msgs := by
+  rw [highloadKvs_eq, List.map_map]
   apply List.ext_getElem
   · simp
   · intro i h1 h2
     simp [List.getD_eq_getElem?_getD, List.getElem?_eq_getElem h2]
 
-theorem highloadEntry_leaf (kv : List Bool × RawMsg) (hm : kv.2.mode < 256) (q : List Bool) :
-    highloadEntry (q, leafR kv) = .ok kv.2 := by
-  unfold highloadEntry leafR
-  have := CellR.readUint_append 8 kv.2.mode [] [kv.2.msg] hm
-  rw [List.append_nil] at this
-  simp only [bind, Outcome.bind, pure, this, CellR.nextRef_cons]
+theorem highloadKvs_width (msgs : List RawMsg) : ∀ kv ∈ highloadKvs msgs, kv.1.length = 16 := by
+  rw [highloadKvs_eq]
+  intro kv hkv
+  obtain ⟨x, _, rfl⟩ := List.mem_map.mp hkv
+  simp
 
-/-- reading the entries back: mode byte and message ref of every leaf -/
-theorem entries_mapM (kvs : List (List Bool × RawMsg)) (hm : ∀ kv ∈ kvs, kv.2.mode < 256) :
-    (kvs.map fun kv => (([] : List Bool) ++ kv.1, leafR kv)).mapM highloadEntry = .ok (kvs.map (·.2)) := by
-  induction kvs with
-  | nil => rfl
-  | cons kv rest ih =>
-    rw [List.map_cons, List.mapM_cons, highloadEntry_leaf kv (hm kv (by simp)), ih (fun x hx => hm x (by simp [hx]))]
-    rfl
+theorem highloadKvs_sorted (msgs : List RawMsg) (hn : msgs.length ≤ 65536) : SortedKV (highloadKvs msgs) := by
+  rw [highloadKvs_eq]
+  unfold SortedKV
+  rw [List.pairwise_map]
+  have hp : (List.range' 0 msgs.length).Pairwise (· < ·) := List.pairwise_lt_range'
+  refine List.Pairwise.imp_of_mem ?_ hp
+  intro a b ha hb hab
+  have ha' := List.mem_range'_1.mp ha
+  have hb' := List.mem_range'_1.mp hb
+  rw [lexLt_iff_bitsToNat _ _ (by simp), bitsToNat_natToBits, bitsToNat_natToBits, Nat.mod_eq_of_lt (by omega),
+    Nat.mod_eq_of_lt (by omega)]
+  exact hab
 
-/-- the dictionary of 1..65536 messages builds, is an ordinary cell, and reads back as the messages in order -/
+/-- the dictionary of 1..65536 messages (modes are bytes) builds, is an ordinary cell, and `HashmapE.UnmarshalTLB` on
+`1 ^dict` returns the entries unchanged, in order -/
 theorem highloadDict_roundtrip (msgs : List RawMsg) (h1 : 1 ≤ msgs.length) (h2 : msgs.length ≤ 65536)
     (hm : ∀ m ∈ msgs, m.mode < 256) :
     ∃ d, highloadDict msgs = .ok d ∧ d.ty = 0 ∧
       ∀ (bits : List Bool) (rest : List Cell),
-        (readHashmapE (fun r => Outcome.ok r) 16 { bits := true :: bits, refs := d :: rest }).bind
-          (fun (x : List (List Bool × CellR) × CellR) => x.1.mapM highloadEntry) = .ok msgs := by
-  have ht := interval_trie 16 0 msgs.length (fun x => msgs.getD x default) h1 (by norm_num; omega)
-  obtain ⟨d, hd, hty, hdec⟩ := trie_roundtrip ht (Nat.le_refl _) 18 (16 + 2) 16 [] (by decide) (by decide) rfl
-  refine ⟨d, ?_, hty, ?_⟩
-  · unfold highloadDict highloadValue
-    rw [highload_keys]
-    exact hd
+        unmarshalE highloadCodec 16 (Cell.ordinary (true :: bits) (d :: rest)) = .ok (highloadKvs msgs) := by
+  have hne : highloadKvs msgs ≠ [] := by
+    intro h
+    have := congrArg List.length (highloadKvs_values msgs)
+    rw [h] at this
+    simp at this
+    omega
+  have hfit : ∀ kv ∈ highloadKvs msgs, Fits highloadCodec hlPay 16 kv.2 := by
+    intro kv hkv
+    have : kv.2 ∈ (highloadKvs msgs).map (·.2) := List.mem_map_of_mem hkv
+    rw [highloadKvs_values] at this
+    exact hl_fits kv.2 (hm _ this)
+  have hs := highloadKvs_sorted msgs h2
+  obtain ⟨t, hv, hmean, henc⟩ := C05.encode_sorted_tree highloadCodec hlPay 16 (highloadKvs msgs) hne (highloadKvs_width msgs) hs hfit
+  have hdec : ∀ kv ∈ t.meaning, DecodesValue highloadCodec hlPay kv.2 := by
+    rw [hmean]; exact fun kv hkv => (hfit kv hkv).2.2.2
+  have hun := (C05.decode_any_valid highloadCodec hlPay 16 (by norm_num; omega) t hv hdec).1
+  have hty : (t.toCell hlPay 16).ty = 0 := by cases t <;> rfl
+  have hmax : maxKeyLen (highloadKvs msgs) = 16 := maxKeyLen_eq 16 _ hne (highloadKvs_width msgs)
+  refine ⟨t.toCell hlPay 16, ?_, hty, ?_⟩
+  · unfold highloadDict marshal
+    have : (highloadKvs msgs).isEmpty = false := by cases h : highloadKvs msgs <;> simp_all
+    simp only [this, Bool.false_eq_true, ↓reduceIte, hmax, sortKV_of_sorted _ hs]
+    exact henc
   · intro bits rest
-    unfold readHashmapE
-    simp only [CellR.readBit_cons, bind, Outcome.bind, pure, Bool.not_true, Bool.false_eq_true, ↓reduceIte,
-      CellR.nextRef_cons, hty, tyLibrary]
-    rw [if_neg (by decide), hdec]
-    simp only []
-    have hmodes : ∀ kv ∈ keysOf 16 0 msgs.length (fun x => msgs.getD x default), kv.2.mode < 256 := by
-      intro kv hkv
-      have : kv.2 ∈ (keysOf 16 0 msgs.length (fun x => msgs.getD x default)).map (·.2) := List.mem_map_of_mem hkv
-      rw [keysOf_values] at this
-      exact hm _ this
-    rw [entries_mapM _ hmodes, keysOf_values]
+    have hw : C05.wrapE (t.toCell hlPay 16) = Cell.ordinary [true] [t.toCell hlPay 16] := rfl
+    rw [hw, hmean] at hun
+    simp only [unmarshalE, Cell.ordinary, Cell.ty, Cell.bits, Cell.refs, tyLibrary] at hun ⊢
+    exact hun
 
 end Tongo.Wallet
